@@ -20,10 +20,10 @@ from .c07 import gen_pattern, gen_extra
 
 ID = "C15"
 LEVEL = "fault_enumeration"
-TIERS = {"quick": {"runs": 32}, "thorough": {"runs": 480}}
+TIERS = {"quick": {"runs": 32}, "thorough": {"runs": 240}}
 RULE = ("one case = one (configuration, data word, set of flipped stored bits) read event; per run one configuration (lane width 8/16/32/64, "
         "lanes 1..8, read stalls, memory timing) and a few data words, for each: no flip, every single stored bit of every lane, pairs of bits "
-        "of one lane (all pairs in the thorough tier, sampled in quick), flips in several lanes; plus full and partial byte-enable writes; "
+        "of one lane (all pairs in the thorough tier for lanes up to 32 data bits, 1000 sampled pairs for 64-bit lanes; sampled in quick), flips in several lanes; plus full and partial byte-enable writes; "
         "evaluations counts read events; non-trivial = event with >= 1 flipped bit; distinct = distinct (configuration, word, flip set)")
 ASSUMPTIONS = [
     "stored codeword = the word the port wrote to port_to; flips are XORed into the stub memory after the write data was taken and before the read command",
@@ -345,12 +345,12 @@ def gen(rng, tier, index):
                 events.append({"wid": wid, "flips": [lane * lane_w + pos]})
         # pairs: all pairs of one lane (thorough) or a sample (quick)
         lane = rng.choice(lanes)
-        if tier == "thorough" and w == 0:
+        if tier == "thorough" and w == 0 and cw <= 39:     # 64-bit lanes (72-bit codewords, 2556 pairs): sampled below, 1000 pairs
             for a in range(cw):
                 for b in range(a + 1, cw):
                     events.append({"wid": wid, "flips": [lane * lane_w + a, lane * lane_w + b]})
         else:
-            for _ in range(120 if tier == "quick" else 400):
+            for _ in range(120 if tier == "quick" else (1000 if cw > 39 and w == 0 else 400)):
                 ln = rng.choice(lanes)
                 a, b = rng.sample(range(cw), 2)
                 events.append({"wid": wid, "flips": [ln * lane_w + a, ln * lane_w + b]})
